@@ -43,6 +43,8 @@ var selMap = map[string]map[string]string{
 	"math/rand": {"New": "RandNew", "NewSource": "RandNewSource", "Rand": "Rand", "Source": "RandSource", "Float64": "RandFloat64",
 		"Intn": "RandIntn", "Int63": "RandInt63", "Int63n": "RandInt63n", "Int": "RandInt", "Shuffle": "RandShuffle", "Seed": "RandSeed"},
 	"runtime": {"Gosched": "Yield"},
+	"hash/maphash": {"MakeSeed": "MaphashMakeSeed", "Seed": "MaphashSeed", "String": "MaphashString", "Bytes": "MaphashBytes", "Hash": "MaphashHash"},
+	"hash/fnv":     {"New32": "FnvNew32", "New32a": "FnvNew32a", "New64": "FnvNew64", "New64a": "FnvNew64a"},
 }
 
 type Spec struct {
